@@ -54,6 +54,8 @@ def generate(rng, seed, index, tier):
         kw["scaling_type"] = "Custom"
         kw["scaling"] = {"var": rng.integers(-2, 3, size=spec["n"]).tolist(), "cons": rng.integers(-2, 3, size=spec["m"]).tolist(), "obj": int(rng.integers(-1, 2))}
     kw = gen.quiet_params(kw)
+    if rng.random() < 0.2:
+        kw["precision"] = "Double"  # the default, spelled out by name (as a configuration file would)
     clock = None
     if rng.random() < 0.15:
         # a deadline, and callback evaluations that take (virtual) time: the check's own evaluations must not
